@@ -52,6 +52,7 @@ type Scenario struct {
 	PreCancel   bool    `json:"precancel,omitempty"`   // the context is already cancelled when the stage is created
 	Repeat      int     `json:"repeat,omitempty"`      // execute the scenario this many times (samples scheduler-owned overlaps)
 	CancelAtEnd bool    `json:"cancelAtEnd,omitempty"` // free-running tier: the producer starts a goroutine that cancels, sends the last element and closes the input, without yielding in between
+	Deadline    bool    `json:"deadline,omitempty"`    // the context ends by a deadline (Err() == context.DeadlineExceeded), not by an explicit cancel
 	Twin        bool    `json:"twin,omitempty"`        // a second, independent instance of the same stage runs alongside on its own input and context
 	Par         int     `json:"par,omitempty"`         // fork stages: number of workers
 	Gated       bool    `json:"gated,omitempty"`       // fork stages: user calls block on gates opened by release moves
@@ -187,7 +188,7 @@ func (e *env) decodeErr(err error) int {
 		}
 		return -1
 	}
-	if err == context.Canceled && e.cancelled {
+	if (err == context.Canceled || err == context.DeadlineExceeded && e.sc.Deadline) && e.cancelled {
 		return -2
 	}
 	return -1
@@ -393,6 +394,9 @@ func (e *env) do(m Move) string {
 		e.releaseAll() // one wake-up for all pending calls
 	case "tick":
 		time.Sleep(time.Duration(max(m.M, 1)) * e.sc.unit())
+	case "wait":
+		// seconds, minutes or an hour of virtual time: nothing may depend on how long the environment takes
+		time.Sleep(time.Duration(max(m.M, 1)) * time.Second)
 	case "batch":
 		for _, s := range m.Sub {
 			if s.K == "batch" || s.K == "tick" {
@@ -598,4 +602,38 @@ func (e *env) inflight() int {
 	e.mu.Lock()
 	defer e.mu.Unlock()
 	return len(e.pendingCalls)
+}
+
+// expCtx is a context that ends like a deadline context does (Err() == context.DeadlineExceeded) at the moment the
+// script says so.  A real context.WithDeadline cannot be made to expire at a scripted quiescent point.
+type expCtx struct {
+	done chan struct{}
+	mu   sync.Mutex
+	err  error
+}
+
+func (c *expCtx) Deadline() (time.Time, bool) { return time.Time{}, false }
+func (c *expCtx) Done() <-chan struct{}       { return c.done }
+func (c *expCtx) Value(any) any               { return nil }
+func (c *expCtx) Err() error {
+	c.mu.Lock()
+	defer c.mu.Unlock()
+	return c.err
+}
+func (c *expCtx) expire() {
+	c.mu.Lock()
+	defer c.mu.Unlock()
+	if c.err == nil {
+		c.err = context.DeadlineExceeded
+		close(c.done)
+	}
+}
+
+// newCtx: the context of a scenario and the function that ends it (cancel, or expiry when sc.Deadline).
+func newCtx(sc *Scenario) (context.Context, context.CancelFunc) {
+	if sc.Deadline {
+		c := &expCtx{done: make(chan struct{})}
+		return c, c.expire
+	}
+	return context.WithCancel(context.Background())
 }
